@@ -41,8 +41,10 @@ CHECKS = {
          "covered by the correspondence only; percentages restricted to (p, n) where binary64 and exact ceil agree."),
  "C05": ("proof", "C05_scan_eq_spec: the two-phase scan procedure (global rules first with delayed reporting, namespace "
          "disabling, fix-up, positional rule references, variable alignment) returns exactly the declarative rule-set semantics, "
-         "for every rule set / input / match set (list API, full pass); correspondence on list and callback APIs, with and "
-         "without include_not_matched and the no-scan pass.", "DESIGN.md §7 C05",
+         "for every rule set / input / match set (list and callback APIs, every configuration); C05_ns_independent: rules of "
+         "other namespaces declared after or before a set A leave every verdict and every reported rule of A unchanged; "
+         "correspondence on list and callback APIs, with and without include_not_matched and the first evaluation pass.",
+         "DESIGN.md §7 C05, §12.4",
          "String matches are an input of the scanner model. Open finding C05-global-refs-ordinary (a global rule referring to an "
          "ordinary rule panics at scan time) is excluded by wf_scanner and shown by a refuted lemma."),
  "C06": ("proof", "C06_no_scan_sound: whatever the evaluation pass done before the string scan answers (other than 'matches "
@@ -125,7 +127,8 @@ CHECKS = {
          "library results for the same files, thread counts 1-16, flag subsets, save/load.", "DESIGN.md §7 C18, notes/C18.md",
          "Real scheduling, mmap vs buffered reads and clap are runtime: explored, not proved."),
  "C19": ("proof", "Chunk tiling for every region length / chunk size / page size, fetch cap, reset = fresh cursor, pagemap "
-         "decision table; correspondence: the real LinuxProcessMemory walked over synthetic /proc files, every next/fetch/reset "
+         "decision table, and C19_fetch_is_view: a file-backed fetch (file pages from the file, modified pages from "
+         "/proc/pid/mem) returns exactly the process's view of the chunk under kernel coherence; correspondence: the real LinuxProcessMemory walked over synthetic /proc files, every next/fetch/reset "
          "answer and every fetched byte against model and spec.", "DESIGN.md §7 C19",
          "procfs semantics assumed as documented in proc(5); a live victim process (anonymous, private and shared file mappings, needles around page and chunk boundaries) is scanned in both tiers. Open finding C19-shared-tail-beyond-eof."),
  "C20": ("proof", "Include expansion model = textual inlining (transparency, same error kind, totality with the depth limit, "
